@@ -257,6 +257,92 @@ def trace_validation(rep, wd, tier, seed):
     validate_batches(rep, wd, 'Trace_Block', 'Trace_Block.cfg', batches, 'unblock-trace', describe)
 
 
+def _drive_ind(args):
+    """real Unblock1014 objects with the wrapped file's position and the buffer length recorded after every read"""
+    import io
+    import sys
+    from cardutil import mciipm
+    seed, lo, hi = args
+    out = []
+    for tid in range(lo, hi):
+        r = drv.rng(seed, 'c05-ind', tid)
+        nb = r.choice((0, 1, 2, 3, 5, 9))
+        tail = r.choice((0, 0, 1, 2, 500, P - 1, P, P + 1))
+        data = bytes((j * 7 + tid) % 251 for j in range(nb * (P + T) + tail))
+        f = io.BytesIO(data)
+        sizes = [r.choice((0, 1, 2, 4, 4, P - 1, P, P + 1, 2 * P, 3 * P + 7, r.randrange(1, 60), r.randrange(1, 3 * P),
+                           sys.maxsize if tid % 7 == 3 else 5)) for _ in range(r.choice((1, 2, 3, 5, 8, 13)))]
+        ev = []
+        with drv.Env('ind', tid):
+            u = mciipm.Unblock1014(f)
+            for n in sizes:
+                try:
+                    o = u.read() if n == 0 else u.read(n)
+                    ev.append({'n': min(n, 2000000000), 'fpos': f.tell(), 'buf': len(u.buffer) if isinstance(getattr(u, 'buffer', None), (bytes, bytearray)) else -1,
+                               'ret': len(o)})
+                except BaseException as ex:  # noqa
+                    ev.append({'n': min(n, 2000000000), 'fpos': -1, 'buf': -1, 'ret': -1, '_observed': drv.exc_outcome(ex)})
+                    break
+        out.append({'tid': tid, 'flen': len(data), 'events': ev,
+                    '_desc': 'Unblock1014 over %d bytes, reads %s: (file position, buffer length, returned length) after each' % (len(data), sizes)})
+    return out
+
+
+def induction(rep, wd, tier, seed):
+    """unbounded statement: Apalache discharges the inductive invariant of the implementation-shaped model
+    UnblockIntInd; Trace_UnblockInd replays real executions through that model (state binding)."""
+    import subprocess
+    import time
+    outd = os.path.join(wd, 'apalache')
+    done = []
+    for name, args in (('Init => IndInv', ['--init=Init', '--inv=IndInv', '--length=0']),
+                       ('IndInv /\\ Next => IndInv\'', ['--init=IndInit', '--inv=IndInv', '--length=1'])):
+        t0 = time.time()
+        try:
+            p = subprocess.run(['apalache-mc', 'check'] + args + ['--out-dir=' + outd, 'UnblockIntInd.tla'], cwd=core.SPEC,
+                               stdout=subprocess.PIPE, stderr=subprocess.STDOUT, text=True, timeout=900)
+        except subprocess.TimeoutExpired:
+            raise core.MachineryError('Apalache timed out on ' + name)
+        if 'EXITCODE: OK' not in p.stdout:
+            raise core.MachineryError('Apalache did not discharge %s:\n%s' % (name, p.stdout[-1500:]))
+        done.append({'obligation': name, 'wall_s': round(time.time() - t0, 1)})
+    n = 1600 if tier == 'thorough' else 240
+    chunks = core.split(list(range(n)), core.NCPU)
+    with ProcessPoolExecutor(len(chunks)) as ex:
+        batches = list(ex.map(_drive_ind, [(seed, c[0], c[-1] + 1) for c in chunks]))
+    follows = [True]
+
+    def one(i):
+        return core.tlc_batch('Trace_UnblockInd', 'Trace_UnblockInd.cfg', wd, {'traces': batches[i]}, 'ind-batch%d' % i, workers=1)
+    from concurrent.futures import ThreadPoolExecutor
+    with ThreadPoolExecutor(min(core.NCPU, len(batches))) as ex:
+        outs = list(ex.map(one, range(len(batches))))
+    for i, (acc, rejects, res) in enumerate(outs):
+        rep.add_tlc('Trace_UnblockInd batch %d' % i, res)
+        rep.traces += len(batches[i])
+        by_id = {t['tid']: t for t in batches[i]}
+        for rj in rejects:
+            t = by_id[rj[1]]
+            e = t['events'][min(rj[2], len(t['events'])) - 1]
+            if rj[3] == 'returned-length-differs':
+                rep.violation('unblock-ind:%s' % rj[3], {'case': t['_desc'], 'event': rj[2], 'clause': rj[3], 'request': e['n'],
+                                                       'observed_returned_len': e['ret'], 'observed': e.get('_observed')})
+            else:
+                # the code no longer refills the way the model does: not a violation of C05 (what is returned decides
+                # that), but the unbounded proof then says nothing about this code any more
+                follows[0] = False
+    rep.extra['apalache_inductive_invariant'] = {
+        'module': 'spec/UnblockIntInd.tla', 'discharged': done,
+        'meaning': 'for blocked inputs of any length (whole or cut anywhere), any number of reads and request sizes over all '
+                   'naturals, every read returns exactly the requested number of payload bytes or all that remain',
+        'real_executions_replayed_through_the_model': sum(len(b) for b in batches),
+        'code_follows_the_modelled_refill_discipline': follows[0]}
+    if not follows[0]:
+        rep.notes.append('Unblock1014 no longer refills its buffer the way spec/UnblockIntInd.tla does (file position / buffer '
+                         'length differ after a read): the Apalache result is about the model only; the returned data are '
+                         'judged by Trace_Block and UnblockInt as before')
+
+
 def model_check(rep, wd, tier):
     big = tier == 'thorough'
     cfg = write_cfg(os.path.join(wd, 'MC_Unblocker.cfg'),
@@ -278,6 +364,7 @@ def run(rep, wd, tier, seed):
     rep.assumptions += ['TLC 1.8 evaluates the TLA+ text correctly', 'wrapped file object is io.BytesIO',
                         'read(0) written explicitly and negative sizes are outside the statement (not generated)']
     model_check(rep, wd, tier)
+    induction(rep, wd, tier, seed)
     stream_replay(rep, wd, tier, seed)
     fault_replay(rep, wd, tier)
     trace_validation(rep, wd, tier, seed)
